@@ -3,82 +3,46 @@ import J5V.Bcl.DiffProofs
 /-!
 # C19 — editor format edits are well-formed and equal the formatter
 
-Only property theorems, full statements, counterexample witnesses and non-vacuity examples.
-Models: `J5V.Bcl.Diff` (`fmtDiffs`, `rangeLines`, `applyEdits`), `J5V.Bcl.FmtDiffs`
+Only property theorems, full statements and non-vacuity examples.
+Models: `J5V.Bcl.Diff` (`fmtDiffs`, `mergeFrags`, `rangeLines`, `applyEdits`), `J5V.Bcl.FmtDiffs`
 (`fmtDiffsSrc`, `fmtSrc`, `fragEdits`); lemmas: `J5V.Bcl.DiffProofs`.
 -/
 namespace J5V.Props.C19
 open J5V.Go J5V.Bcl
 
-/-- `FragRangesWF`: the fragments the formatter collects for `bytes` have ascending,
-non-overlapping line ranges with `from < to ≤ lineCount`. Decidable. -/
+/-- `FragRangesWF`: the fragments the formatter collects for `bytes` have line ranges with
+`from < to ≤ lineCount`, each starting no earlier than the last line of the previous one
+(`RawWF`).  A decidable predicate of the source. -/
 def FragRangesWF (cls : Cls) (bytes : List Nat) : Prop :=
-  match collectFragments cls (decodeRunes bytes) with
-  | .ok frags => FragsWF (splitLines bytes).length 0 (fragEdits cls frags)
-  | _ => True
+  ∀ frags, collectFragments cls (decodeRunes bytes) = .ok frags →
+    RawWF (splitLines bytes).length 0 (fragEdits cls frags)
 
-instance (cls : Cls) (bytes : List Nat) : Decidable (FragRangesWF cls bytes) := by
-  unfold FragRangesWF; split <;> exact inferInstance
-
-/-! ## The property as stated (full strength) -/
-
-/-- "for every source the formatter accepts, the list of line edits is computed without failure" -/
-def C19_no_panic_full : Prop :=
-  ∀ (cls : Cls) (bytes : List Nat), (∃ out, fmtSrc cls bytes = .ok out) →
-    ∃ es, fmtDiffsSrc cls bytes = .ok es
-
-/-- "the edits are ascending, do not overlap, and satisfy start ≤ end ≤ number of lines" -/
-def C19_wellformed_full : Prop :=
-  ∀ (cls : Cls) (bytes : List Nat) (es : List Edit), fmtDiffsSrc cls bytes = .ok es →
-    EditsWF (splitLines bytes).length 0 es
-
-/-! ## The current code violates both (recorded findings; same witnesses replay on the Go side) -/
-
-/-- a block header followed by a trailing comment below line 1: `walkStatement` never sets
-`hdr.End` on the COMMENT path, so the fragment's `ToLine` is 1 and `lines[2:1]` panics. -/
-theorem C19_no_panic_counterexample : ¬ C19_no_panic_full := by
-  intro h
-  have := h asciiCls (ofAscii "x\ny\nb // c") ⟨_, rfl⟩
-  revert this
-  decide
-
-/-- `} foo = 1`: two fragments on the same line give two edits for the same line range. -/
-theorem C19_wellformed_counterexample : ¬ C19_wellformed_full := by
-  intro h
-  have := h asciiCls (ofAscii "a {\n} foo = 1") _ rfl
-  revert this
-  decide
-
-/-! ## What is proved: for every source whose fragment ranges are well-formed -/
-
-/-- no panic (and no error) in `FmtDiffs` whenever the formatter accepts the source and the fragment
-ranges are well-formed. -/
+/-- no panic (and no error) in `FmtDiffs` whenever the formatter accepts the source (given
+well-formed fragment ranges). -/
 theorem C19_no_panic_partial (cls : Cls) (bytes : List Nat) (hwf : FragRangesWF cls bytes)
     (hfmt : ∃ out, fmtSrc cls bytes = .ok out) : ∃ es, fmtDiffsSrc cls bytes = .ok es := by
-  unfold FragRangesWF at hwf
   unfold fmtDiffsSrc
   unfold fmtSrc fmt at hfmt
   cases hc : collectFragments cls (decodeRunes bytes) with
   | panic s => rw [hc] at hfmt; obtain ⟨_, h⟩ := hfmt; cases h
   | err => rw [hc] at hfmt; obtain ⟨_, h⟩ := hfmt; cases h
   | ok frags =>
-    rw [hc] at hwf
-    obtain ⟨es, he, _⟩ := fmtDiffs_spec (splitLines bytes) (fragEdits cls frags) hwf
+    obtain ⟨es, he, _⟩ := fmtDiffs_spec (splitLines bytes) (fragEdits cls frags) (hwf frags hc)
     simp only [he]
     exact ⟨es, rfl⟩
 
-/-- the edits are ascending, non-overlapping and within `0 ≤ from ≤ to ≤ lineCount`. -/
+/-- the edits are ascending, non-overlapping and within `0 ≤ from ≤ to ≤ lineCount`
+(`EditsWF n 0 es`: each edit starts at or after the end of the previous one, `from ≤ to ≤ n`). -/
 theorem C19_wellformed_partial (cls : Cls) (bytes : List Nat) (hwf : FragRangesWF cls bytes)
     (es : List Edit) (h : fmtDiffsSrc cls bytes = .ok es) :
     EditsWF (splitLines bytes).length 0 es := by
-  unfold FragRangesWF at hwf
   unfold fmtDiffsSrc at h
   cases hc : collectFragments cls (decodeRunes bytes) with
   | panic s => rw [hc] at h; cases h
   | err => rw [hc] at h; cases h
   | ok frags =>
-    rw [hc] at hwf h
-    obtain ⟨es', he, hw⟩ := fmtDiffs_spec (splitLines bytes) (fragEdits cls frags) hwf
+    rw [hc] at h
+    obtain ⟨es', he, hw⟩ := fmtDiffs_spec (splitLines bytes) (fragEdits cls frags) (hwf frags hc)
     simp only [he] at h
     cases h
     exact hw
@@ -86,16 +50,32 @@ theorem C19_wellformed_partial (cls : Cls) (bytes : List Nat) (hwf : FragRangesW
 /-- The same two facts for `fmtDiffs` itself over **arbitrary** source lines and fragments (not only
 those the formatter produces). -/
 theorem C19_fmtDiffs_wellformed (lines : List (List Nat)) (frags : List Edit)
-    (h : FragsWF lines.length 0 frags) :
+    (h : RawWF lines.length 0 frags) :
     ∃ es, fmtDiffs lines frags = .ok es ∧ EditsWF lines.length 0 es :=
   fmtDiffs_spec lines frags h
 
-/-! ## Non-vacuity: realistic sources meet the hypotheses and produce edits -/
+/-! ## Non-vacuity: a realistic source (leading blank lines, double gap, block, trailing comment,
+two statements on one line) meets the hypothesis, is accepted by the formatter and produces edits -/
 
-example : FragRangesWF asciiCls (ofAscii "\n\na  =  1\n\n\n  b {\nc = \"x\" // k\n}\n") := by decide
-example : ∃ out, fmtSrc asciiCls (ofAscii "\n\na  =  1\n\n\n  b {\nc = \"x\" // k\n}\n") = .ok out :=
-  ⟨_, rfl⟩
-example : ∃ e1 e2 e3 es, fmtDiffsSrc asciiCls (ofAscii "\n\na  =  1\n\n\n  b {\nc = \"x\" // k\n}\n")
-    = .ok (e1 :: e2 :: e3 :: es) := ⟨_, _, _, _, rfl⟩
+def sample : List Nat := ofAscii "\n\na  =  1\n\n\n  b {\nc = \"x\" // k\n} d = 2\n"
+
+/-- Boolean form of `FragRangesWF` for evaluation -/
+def fragRangesOK (cls : Cls) (bytes : List Nat) : Bool :=
+  match collectFragments cls (decodeRunes bytes) with
+  | .ok frags => decide (RawWF (splitLines bytes).length 0 (fragEdits cls frags))
+  | _ => true
+
+theorem fragRangesOK_sound (cls : Cls) (bytes : List Nat) (h : fragRangesOK cls bytes = true) :
+    FragRangesWF cls bytes := by
+  intro frags hc
+  unfold fragRangesOK at h
+  rw [hc] at h
+  exact of_decide_eq_true h
+
+example : FragRangesWF asciiCls sample := fragRangesOK_sound _ _ (by decide +kernel)
+example : (match fmtSrc asciiCls sample with | .ok _ => true | _ => false) = true := by
+  decide +kernel
+example : (match fmtDiffsSrc asciiCls sample with | .ok es => decide (es.length ≥ 3) | _ => false)
+    = true := by decide +kernel
 
 end J5V.Props.C19
